@@ -16,6 +16,10 @@ KINDS = {
     "u": {"kind": "unknown"},
     "s": {"flavour": "sync"},  # sync task on the (fake) executor
     "a": {"ack": "async", "gates": ["ack"]},  # ackable message whose ack completes later
+    "x": {"outcome": "raise", "exc": "SystemExit"},  # task calling sys.exit()
+    "k": {"outcome": "raise", "exc": "KeyboardInterrupt", "flavour": "sync"},
+    "e": {"kind": "malformed", "payload": "empty"},  # empty payload
+    "q": {"kind": "malformed", "payload": "sentinel-lookalike"},  # payload equal to the internal end marker
 }
 
 META = {
@@ -23,7 +27,7 @@ META = {
     "engine": "E1 explicit-state exploration of Receiver.listen() on a hand-stepped event loop",
     "rule": (
         "for every scenario (max_async_tasks x max_prefetch x max_tasks_to_execute x finite/infinite "
-        "stream x message list over {valid-return, valid-raise, malformed, unknown, sync task, ackable with slow ack}) all orderings of the "
+        "stream x message list over {valid-return, valid-raise, malformed, unknown, empty payload, payload equal to the internal end marker, sync task, ackable with slow ack, task raising SystemExit / KeyboardInterrupt}) all orderings of the "
         "external events deliver(k), body(i), stop and timers are explored from quiescent state to "
         "quiescent state with state matching on a fingerprint of the live coroutine frames; level-1 "
         "scenarios add every pair of events injected into the same loop iteration. Oracles: #START<=1 per "
@@ -55,6 +59,7 @@ def scenarios(tier: str) -> List[Dict[str, Any]]:
         words = ["".join(w) for n in (1, 2) for w in itertools.product("vrmu", repeat=n)]
         words += ["".join(w) for w in itertools.product("vm", repeat=3)] + ["vru", "uvr", "rmv"]
         words += ["s", "a", "sv", "vs", "av", "va", "sa", "ms", "am", "svs", "ava"]
+        words += ["x", "xv", "vx", "kv", "e", "ev", "ve", "q", "qv", "vq", "vev", "vvvv"]
         l1_words = ["v", "vv", "vm", "mv"]
         l1_cfg = [(a, p, n) for a in (1, 2) for p in (0, 1) for n in (None, 1, 2)]
         l2_words: List[str] = []
@@ -64,6 +69,7 @@ def scenarios(tier: str) -> List[Dict[str, Any]]:
         words = ["".join(w) for n in (1, 2, 3) for w in itertools.product("vrmu", repeat=n)]
         words += ["".join(w) for w in itertools.product("vm", repeat=4)] + ["vrum", "uvrv", "vvvu"]
         words += ["".join(w) for n in (1, 2, 3) for w in itertools.product("vsa", repeat=n) if set(w) & set("sa")]
+        words += ["".join(w) for n in (1, 2, 3) for w in itertools.product("vxeq", repeat=n) if set(w) & set("xeq")] + ["kv", "vk"]
         l1_words = ["v", "vv", "vm", "mv", "vr", "uv", "vvv", "vmv", "mvv", "vvm"]
         l1_cfg = [(a, p, n) for a in (None, 1, 2) for p in (0, 1, 2) for n in (None, 1, 2)]
         l2_words = ["vv", "vm"]
